@@ -77,6 +77,31 @@ pub fn run_c01(ctx: &mut Ctx, replay: Option<&[String]>) {
             ctx.emit(&input, &res.join(" "), nontrivial, &tags);
         }
     }
+    // very wide matrices (more than 2^16 columns, checks that join a low and a high column): column indices must not pass through a
+    // 16-bit type anywhere between the matrix, the syndrome test and the word.  Judged by the C01 predicate only (the list-based model
+    // is not run on 65 000 columns).
+    for (i, imp) in all_impls().into_iter().enumerate() {
+        if !ctx.thorough && i % 2 == 1 && !imp.to_string().starts_with("HL") { continue; }
+        let n = 65536 + rng.range(2, 60);
+        let mut h = SparseMatrix::new(3, n);
+        let hi = [65536, 65536 + rng.range(1, n - 65536 - 1), n - 1];
+        let lo = [1usize, rng.range(2, 300), 0];
+        for r in 0..3 {
+            h.insert(r, lo[r]);
+            h.insert(r, hi[r]);
+            if r == 1 { h.insert(r, 40_000); }
+        }
+        // all bits received as 0 except one or two of the high columns: the sign pattern violates a check
+        let mut llrs = vec![*rng.pick(&[2.5f64, 6.0, 0.75]); n];
+        llrs[hi[rng.below(3)]] = -*rng.pick(&[1.5f64, 4.0, 0.5]);
+        if rng.chance(1, 2) { llrs[hi[0]] = -3.0; llrs[lo[0]] = -3.25; }
+        let calls = vec![(*rng.pick(&[0usize, 1, 3]), llrs)];
+        let mut d = imp.build_decoder(h.clone());
+        let res = run_history(&mut d, &calls);
+        let mut tags = vec!["more-than-65536-columns"];
+        outcome_tags(&res, &mut tags);
+        ctx.emit(&format!("c01 {} {} {}", imp, sm(&h), calls_str(&calls)), &res.join(" "), !res[0].ends_with(":0"), &tags);
+    }
 }
 
 pub fn run_c10(ctx: &mut Ctx, replay: Option<&[String]>) {
@@ -111,7 +136,18 @@ pub fn run_c10(ctx: &mut Ctx, replay: Option<&[String]>) {
             let (h, fam) = gen_matrix(&mut rng, max_cols);
             let mut tags = vec![fam];
             let ncalls = rng.range(2, 20);
-            let calls = gen_calls(&mut rng, &h, ncalls, &mut tags);
+            let mut calls = gen_calls(&mut rng, &h, ncalls, &mut tags);
+            // a third of the histories present the SAME LLR vector again, under another iteration limit (smaller and larger): a result
+            // remembered from the previous call must not be handed out
+            if rng.chance(1, 3) {
+                for i in 1..calls.len() {
+                    if rng.chance(1, 2) {
+                        calls[i].1 = calls[i - 1].1.clone();
+                        calls[i].0 = *rng.pick(&[0usize, 1, 2, 3, 5, 10, 50]);
+                    }
+                }
+                tags.push("history-repeats-an-llr-vector-under-another-limit");
+            }
             let (a, b) = do_case(imp, &h, &calls);
             outcome_tags(&a, &mut tags);
             let kinds = a.iter().map(|r| &r[..1]).collect::<std::collections::HashSet<_>>().len();
